@@ -40,6 +40,7 @@ fn later_op() -> impl Strategy<Value = Op> {
         2 => any::<u16>().prop_map(Op::Rewrite),
         2 => any::<u16>().prop_map(Op::EditOldMtime),
         2 => any::<u16>().prop_map(Op::MakeEmpty),
+        2 => (any::<u16>(), any::<u16>(), any::<u16>()).prop_map(|(a, b, c)| Op::CopyContent(a, b, c)),
         2 => (any::<u16>(), any::<u16>(), any::<u16>(), any::<bool>()).prop_map(|(a, b, c, d)| Op::Move(a, b, c, d)),
         1 => Just(Op::StageAll),
         3 => Just(Op::CommitAll),
@@ -59,6 +60,7 @@ pub fn strategy() -> impl Strategy<Value = Case> {
         2 => Just(Step::Repo(Op::HotTailEdit)),
         2 => Just(Step::Repo(Op::HotEditOldMtime)),
         3 => Just(Step::Repo(Op::HotEmpty)),
+        3 => (any::<u16>(), any::<u16>()).prop_map(|(a, b)| Step::Repo(Op::HotCopy(a, b))),
         3 => Just(Step::Repo(Op::HotDelete)),
         2 => Just(Step::Repo(Op::CommitAll)),
         3 => Just(Step::UpdatePending),
@@ -272,6 +274,7 @@ pub fn check(case: &Case, w: usize) -> CheckResult {
         .class_if(h.tail_edit, "tail-edit")
         .class_if(h.old_mtime, "edit-with-old-mtime")
         .class_if(h.empty_file, "empty-file")
+        .class_if(h.copied, "content-copied-to-another-path")
         .class_if(later_edits > 0, "later-edits")
         .inv(h.env.invocations))
 }
